@@ -326,9 +326,10 @@ impl Model {
         match resp {
             Resp::Error(_) | Resp::Panic(_) | Resp::Refused(_) => {
                 let (oracle, props): (&'static str, &'static [&'static str]) = match req {
-                    Req::AddVersion { .. } => ("av.error", &["C02", "C12", "C14", "C03"]),
+                    // (C06/C15: a body within the size limit must be accepted, whatever its size or bytes)
+                    Req::AddVersion { .. } => ("av.error", &["C02", "C12", "C14", "C03", "C06", "C15"]),
                     Req::GetChild { .. } => ("gc.error", &["C08", "C14", "C03"]),
-                    Req::AddSnapshot { .. } => ("as.error", &["C10", "C14", "C03"]),
+                    Req::AddSnapshot { .. } => ("as.error", &["C10", "C14", "C03", "C06", "C15"]),
                     Req::GetSnapshot { .. } => ("gs.error", &["C11", "C14", "C03"]),
                     Req::CreateClient { .. } => ("create.error", &["C13"]),
                 };
